@@ -550,14 +550,17 @@ func (w *world) doStep(st *stepT) bool {
 		t := st.Targets[0]
 		m, l := w.content(t.tkey)
 		why := w.removal[t.tkey]
+		sigc := "range-op-missed-key/" + why
 		if why == "" {
+			// never removed before: the fresh key shows content that was not written to it
 			why = "never-existed"
+			sigc = "interference/" + st.Op + "/" + t.Type + "-fresh-key-content"
 		}
 		if st.CreatesMap != nil && !sameMap(m, st.CreatesMap) {
-			w.fail(st, "range-op-missed-key/"+why, reply, fmt.Sprintf("%s was absent (last removal: %s); after %s it holds %d elements, written %d", t.tkey, why, st.Op, len(m), len(st.CreatesMap)), fmt.Sprint(clipMap(st.CreatesMap)), fmt.Sprint(clipMap(m)))
+			w.fail(st, sigc, reply, fmt.Sprintf("%s was absent (last removal: %s); after %s it holds %d elements, written %d", t.tkey, why, st.Op, len(m), len(st.CreatesMap)), fmt.Sprint(clipMap(st.CreatesMap)), fmt.Sprint(clipMap(m)))
 		}
 		if st.CreatesList != nil && !sameList(l, st.CreatesList) {
-			w.fail(st, "range-op-missed-key/"+why, reply, fmt.Sprintf("%s was absent (last removal: %s); after %s it holds %d elements, written %d", t.tkey, why, st.Op, len(l), len(st.CreatesList)), "", "")
+			w.fail(st, sigc, reply, fmt.Sprintf("%s was absent (last removal: %s); after %s it holds %d elements, written %d", t.tkey, why, st.Op, len(l), len(st.CreatesList)), "", "")
 		}
 		w.count("recreate_exact_checks", 1)
 	}
